@@ -75,10 +75,10 @@ def decode_trace_size(backend, d):
 
 
 def run_point(pt):
-    backend, k, mode, caught, auto = pt
+    backend, k, mode, caught, auto = pt[:5]
     d = tempfile.mkdtemp(prefix="pv-c18-")
     try:
-        cfg = {"backend": backend, "k": k, "mode": mode, "caught": caught, "autoprove": auto}
+        cfg = {"backend": backend, "k": k, "mode": mode, "caught": caught, "autoprove": auto, "prehook": len(pt) > 5 and pt[5]}
         r = subprocess.run([common.PY, SCRIPT, json.dumps(cfg)], cwd=d, env=child_env(backend), capture_output=True,
                            text=True, start_new_session=True, timeout=120)
         status = r.returncode
@@ -97,7 +97,7 @@ def run_point(pt):
 
 def judge(res):
     """Reference function.  Returns list of (sig, text)."""
-    backend, k, mode, caught, auto = res["pt"]
+    backend, k, mode, caught, auto = res["pt"][:5]
     out = []
     if res.get("timeout"):
         return [({"klass": "child-timeout"}, "child did not finish")]
@@ -111,6 +111,8 @@ def judge(res):
     success = (es == 0)
     nstmts = min(k, 3)
     base = {"mode": mode, "caught": caught, "autoprove": auto}
+    if len(res["pt"]) > 5 and res["pt"][5]:
+        base["prehook"] = True
     if auto and success:
         if res["calls"] != 1:
             out.append((dict(base, klass="successful-run-not-proved" if res["calls"] == 0 else "proved-more-than-once"),
@@ -142,6 +144,10 @@ def points(thorough, seed):
             if not thorough and backend in ("zkifbellman", "nobackend") and caught != "none":
                 continue        # quick: these two backends share all code with zkinterface / have no artefacts
             pts.append((backend, k, mode, caught, auto))
+    # an exception hook already installed by the environment when pysnark is imported
+    for backend in ("snarkjs", "qaptools") if thorough else ("snarkjs",):
+        for k, mode, caught in itertools.product((0, 2, 3), MODES, CAUGHT if thorough else ("none", "exception")):
+            pts.append((backend, k, mode, caught, True, True))
     return pts
 
 
@@ -157,7 +163,7 @@ def run(ctx):
             shapes.add((res["pt"][0], res["status"], res["calls"], len(res["present"])))
             nprove += res["calls"]
         for sig, text in judge(res):
-            ctx.violation(sig, {"pt": list(res["pt"])}, "backend=%s stop-before-statement=%d mode=%s caught=%s autoprove=%s: %s" % (res["pt"] + (text,)))
+            ctx.violation(sig, {"pt": list(res["pt"])}, "backend=%s stop-before-statement=%d mode=%s caught=%s autoprove=%s%s: %s" % (tuple(res["pt"][:5]) + (" (exception hook pre-installed)" if len(res["pt"]) > 5 and res["pt"][5] else "", text)))
     from .. import e1
     e1.dedupe_violations(ctx)
     ctx.cov["states"] = len(shapes)
